@@ -705,6 +705,41 @@ def check_errno_table(chk, tu, macros, rule='R12.3'):
     chk.require(n >= 30, 'only %d host errno values examined' % n)
 
 
+def check_filetype_table(chk, tu, rule='R12.3'):
+    """file type of a host mode word -> witx filetype (filestat records and directory entries): evaluated for every host S_IF* kind
+    with several permission / set-id bit patterns.  A kind the host can not express in witx terms may be reported as unknown (0);
+    a *wrong* type is a violation"""
+    macros = W.host_macros(('S_IF',))
+    WITX = {'S_IFBLK': {1}, 'S_IFCHR': {2}, 'S_IFDIR': {3}, 'S_IFREG': {4}, 'S_IFLNK': {7}, 'S_IFSOCK': {5, 6, 0}, 'S_IFIFO': {0}}
+    NAMES = {0: 'unknown', 1: 'block_device', 2: 'character_device', 3: 'directory', 4: 'regular_file', 5: 'socket_dgram', 6: 'socket_stream',
+             7: 'symbolic_link'}
+    fn = None
+    for name, f in tu.functions.items():
+        body = astdb.fn_body(f)
+        ps = astdb.fn_params(f)
+        if body is not None and (astdb.file_of(f) or '').endswith('wasi.c') and len(ps) == 1 and 'mode' in (ps[0].get('name') or '').lower() and \
+                'FileType' in tu.desugar(astdb.qtype(f)).split('(')[0] + name:
+            fn = name
+    chk.require(fn is not None, 'no function mapping a mode word to a WASI file type found in wasi.c')
+    chk.fn(fn)
+    n = 0
+    for kind, want in sorted(WITX.items()):
+        if kind not in macros:
+            continue
+        for perm in (0, 0o644, 0o777, 0o7777, 0o4755):
+            mode = macros[kind] | perm
+            it = W.make_interp(tu, {})
+            ps_ = [p for p in it.explore(lambda: (fn, [mode], {})) if not p.aborted]
+            chk.require(len(ps_) == 1 and isinstance(ps_[0].ret, int), '%s(0%o): %d paths' % (fn, mode, len(ps_)))
+            got = ps_[0].ret
+            n += 1
+            chk.expect(got in want or got == 0, rule, 'filetype:%s[0%o]' % (kind, perm),
+                       '%s(mode 0%o, a %s) reports the file type %d (%s); witx: %s - directory listings and filestat records then describe '
+                       'the entry as something it is not' % (fn, mode, kind, got, NAMES.get(got, '?'), ' or '.join(NAMES[w] for w in sorted(want))),
+                       '%s:%s' % (fn, kind))
+    chk.require(n >= 25, 'only %d (kind, permission) cases evaluated' % n)
+
+
 def check_open_flags(chk, tu, macros):
     eps = W.entry_points(tu)
     f = eps['path_open']['preview1']
@@ -973,6 +1008,7 @@ def run(chk):
     chk.floor('R12.8', 2)
     check_seek(chk, tu, macros)
     check_errno_table(chk, tu, macros)
+    check_filetype_table(chk, tu)
     check_open_flags(chk, tu, macros)
     check_filestat(chk, tu)
     check_positional(chk, tu, macros)
